@@ -14,6 +14,7 @@ import (
 	"io"
 	"math/rand"
 	"os"
+	"regexp"
 	"sort"
 	"strings"
 	"sync"
@@ -572,15 +573,22 @@ func c14Check(run *Run, c *c14Case) {
 	if len(cleanErrs) > 0 {
 		run.Feat("clean_reference_has_errors")
 	}
+	if os.Getenv("VERIF_DEBUG") != "" {
+		fmt.Fprintf(os.Stderr, "clean: %s\nwant: %s\n", jsonStr(clean), jsonStr(want))
+	}
 	var nulledPos [][]any
 	c14NulledPositions(clean, want, nil, &nulledPos)
 	// values that exist only at denied positions: they must not occur anywhere in the response bytes
 	cleanStrs, wantStrs := map[string]bool{}, map[string]bool{}
 	c14Strings(clean, cleanStrs)
 	c14Strings(want, wantStrs)
+	// when an input of a @requires field is denied, the engine may compute that field from null inputs ("c(null)", see (1) below):
+	// such a string carries no denied value, also when the clean reference happens to hold the same string at a denied position
+	nullComputed := regexp.MustCompile(`^c\(null(,null)*\)$`)
+	deniedInput := c14DeniedRequiresInput(l, den)
 	var secrets []string
 	for s := range cleanStrs {
-		if !wantStrs[s] && len(s) >= 3 {
+		if !wantStrs[s] && len(s) >= 3 && !(deniedInput && nullComputed.MatchString(s)) {
 			secrets = append(secrets, s)
 		}
 	}
@@ -598,7 +606,7 @@ func c14Check(run *Run, c *c14Case) {
 			c14Strings(cleanN, a)
 			c14Strings(wantN, b)
 			for s := range a {
-				if !b[s] && len(s) >= 3 {
+				if !b[s] && len(s) >= 3 && !(deniedInput && nullComputed.MatchString(s)) {
 					directSecrets = append(directSecrets, s)
 				}
 			}
